@@ -7,6 +7,7 @@ import Blue.Proofs.ScanCongr
 import Blue.Proofs.Stack
 import Blue.Proofs.Kvs
 import Blue.Proofs.ScanLive
+import Blue.Proofs.StoreHistScan
 /-! # Property C03 — range scans return exactly the live keys in range, in order, matching reads
 
 Property theorems only.  The scan a store performs is the cursor stack
@@ -388,6 +389,93 @@ theorem per_component_pruning_resurrects_deleted_key :
     scanAsIs 5 [[(7, 2, true)], [(7, 1, false)]] = some (7, 1, false)
       ∧ scanFixed 5 [[(7, 2, true)], [(7, 1, false)]] = none := scan_resurrects_deleted_key
 
+
+/-! ## history level (model `Blue.StoreHist`, see Props/C01 section `History`)
+
+The right-hand side of `scan_spec*` / `store_scan_spec_dups` is the list
+`(M.filter (isLive M t tomb)).filter (inRange …)`.  After ANY history of writes (put/del/batch),
+rollovers, flushes and compactions meeting `CompactionOk` (the hypotheses of the compaction step are
+listed in Props/C01), with `tomb` read off the history's payload map, that list holds exactly the
+versions of the last accepted writes of the keys in range whose last write was a put, one per key,
+in the order of `M`.  NOT composed here: that the cursor stack of the reached store behaves as that
+list is `store_scan_spec_dups`, whose hypotheses (children behave as tables, `Family`) are not
+derived from the history model. -/
+section History
+open Blue.StoreHist Blue.Kvs
+
+/-- **history_scan_refines** -/
+theorem history_scan_refines {klt : Nat → Nat → Bool} (ops : List Op) (hv : Valid init ops)
+    (M : List (Ver Nat)) (hM : ∀ e, e ∈ M ↔ e ∈ (allComps (run init ops).st).flatten)
+    (t : Nat) (ht : (run init ops).vis ≤ t) (sb eb : Bound Nat) (e : Ver Nat) :
+    e ∈ (M.filter (isLive M t (tombOf (run init ops)))).filter (inRange klt sb eb)
+      ↔ ((∃ v, spec ops e.1 = some (e.2, some v)) ∧ inRange klt sb eb e = true) :=
+  Blue.StoreHist.history_scan_refines ops hv M hM t ht sb eb e
+
+/-- the list is in the order of `M` (sorted when `M` is) … -/
+theorem history_scan_sorted {klt : Nat → Nat → Bool} (h : HState) (M : List (Ver Nat)) (hs : Sorted klt M)
+    (t : Nat) (sb eb : Bound Nat) :
+    Sorted klt ((M.filter (isLive M t (tombOf h))).filter (inRange klt sb eb)) :=
+  Blue.StoreHist.history_scan_sorted h M hs t sb eb
+
+/-- … and shows a key at most once -/
+theorem history_scan_one_per_key {klt : Nat → Nat → Bool} (ops : List Op) (hv : Valid init ops)
+    (M : List (Ver Nat)) (hM : ∀ e, e ∈ M ↔ e ∈ (allComps (run init ops).st).flatten)
+    (t : Nat) (ht : (run init ops).vis ≤ t) (sb eb : Bound Nat) (e e' : Ver Nat)
+    (he : e ∈ (M.filter (isLive M t (tombOf (run init ops)))).filter (inRange klt sb eb))
+    (he' : e' ∈ (M.filter (isLive M t (tombOf (run init ops)))).filter (inRange klt sb eb))
+    (hk : e.1 = e'.1) : e = e' :=
+  Blue.StoreHist.history_scan_one_per_key ops hv M hM t ht sb eb e e' he he' hk
+
+/-! non-vacuity: batch, delete of key 2, rollover, put, flush, overwrite of key 1.  The store ends
+    with a memtable and one level-0 file; the scan of `[1, 3)` shows key 1 at its overwrite and not
+    the deleted key 2 (nor key 3, out of range). -/
+namespace Hist
+
+def ops : List Op :=
+  [.write [(1, some 10), (2, some 20)], .write [(2, none)], .rollover, .write [(3, some 30)], .flush,
+   .write [(1, some 11)]]
+
+theorem ops_valid : Valid init ops := ⟨trivial, trivial, trivial, trivial, trivial, trivial, trivial⟩
+
+def M : List (Ver Nat) := [(1, 5), (1, 1), (2, 2), (2, 1), (3, 4)]
+
+theorem final : (run init ops).st = ⟨[(1, 5), (3, 4)], none, [⟨1, 2, 2, [(2, 2), (1, 1), (2, 1)]⟩], []⟩
+    ∧ (run init ops).vis = 5 := ⟨by rfl, by rfl⟩
+
+theorem M_holds : ∀ e, e ∈ M ↔ e ∈ (allComps (run init ops).st).flatten := by
+  rw [final.1]
+  have : allComps ⟨[(1, 5), (3, 4)], none, [⟨1, 2, 2, [(2, 2), (1, 1), (2, 1)]⟩], []⟩
+      = [[(1, 5), (3, 4)], [(2, 2), (1, 1), (2, 1)]] := by
+    unfold allComps l0Comps
+    rw [l0Order_cons_top _ _ (by decide), l0Order_nil]
+    rfl
+  rw [this]
+  exact mem_iff_of_subsets (by decide) (by decide)
+
+/-- the list itself, by evaluation … -/
+example : (M.filter (isLive M 5 (tombOf (run init ops)))).filter (inRange natLt (.included 1) (.excluded 3))
+    = [(1, 5)] := by decide
+
+/-- … and the theorem instantiated, both directions: `1@5` is shown because the specification says
+    key 1 was last put at 5; `2@2` is not shown because the specification says it is a delete -/
+example : spec ops 1 = some (5, some 11) ∧ spec ops 2 = some (2, none) := by decide
+
+example : (1, 5) ∈ (M.filter (isLive M 5 (tombOf (run init ops)))).filter (inRange natLt (.included 1) (.excluded 3)) :=
+  (Blue.Props.C03.history_scan_refines ops ops_valid M M_holds 5 (by rw [final.2]; exact Nat.le_refl _)
+    (.included 1) (.excluded 3) (1, 5)).mpr ⟨⟨11, by decide⟩, by decide⟩
+
+example : (2, 2) ∉ (M.filter (isLive M 5 (tombOf (run init ops)))).filter (inRange natLt (.included 1) (.excluded 3)) :=
+  fun h => by
+    have := ((Blue.Props.C03.history_scan_refines ops ops_valid M M_holds 5 (by rw [final.2]; exact Nat.le_refl _)
+      (.included 1) (.excluded 3) (2, 2)).mp h).1
+    obtain ⟨v, hv⟩ := this
+    have h2 : spec ops 2 = some (2, none) := by decide
+    rw [h2] at hv
+    cases hv
+
+end Hist
+end History
+
 end Blue.Props.C03
 
 #print axioms Blue.Props.C03.scan_spec
@@ -407,6 +495,9 @@ end Blue.Props.C03
 #print axioms Blue.Props.C03.tree_scan_spec_dups_of_family
 #print axioms Blue.Props.C03.store_scan_spec_dups
 #print axioms Blue.Props.C03.per_component_pruning_resurrects_deleted_key
+#print axioms Blue.Props.C03.history_scan_refines
+#print axioms Blue.Props.C03.history_scan_sorted
+#print axioms Blue.Props.C03.history_scan_one_per_key
 #print axioms Blue.Cursor.scan_stack
 #print axioms Blue.Spec.sorted_ext
 #print axioms Blue.Cursor.level_over
